@@ -85,8 +85,11 @@ def generate(ctx):
             elif r < 0.75:
                 ops.append({"op": "update", "clear": rng.random() < 0.8})
             elif r < 0.85:
-                ops.append({"op": "updatesome", "params": rng.sample(["weight", "bias", "delay"], rng.randint(1, 2)),
-                            "clear": rng.random() < 0.8})
+                sel = rng.sample(["weight", "bias", "delay"], rng.randint(0, 2))     # an empty selection names nothing
+                clear = rng.random() < 0.8
+                if sel and clear and rng.random() < 0.2:
+                    sel = sel + [sel[0]]       # a name given twice: applied once, the second application finds nothing
+                ops.append({"op": "updatesome", "params": sel, "clear": clear})
             elif r < 0.93:
                 ops.append({"op": "clear"})
             else:
